@@ -538,7 +538,9 @@ def edit_byte_interval(
     # TODO: what if blocks overlap over the insertion point?
     for b in bi.blocks:
         if b.offset >= offset and b not in static_blocks:
-            b.offset += size_delta
+            # A (zero-sized) block inside the removed range stays at the
+            # edit point instead of moving in front of it.
+            b.offset = max(b.offset + size_delta, offset)
 
     # adjust sym exprs that occur after the insertion point
     bi.symbolic_expressions = {
